@@ -732,3 +732,10 @@ N('C20', 'sequence with other local names', ICOM,
   "            mid = self.c2.compute_wp(post)\n            pre = self.c1.compute_wp(mid)\n            self.pre.append(pre)", "            r = self.c2.compute_wp(post)\n            p = self.c1.compute_wp(r)\n            self.pre.append(p)")
 N('C20', 'priorities rescaled', IEXPR,
   '    "*": 70, "+": 65, "-": 65,', '    "*": 72, "+": 66, "-": 66,')
+B('C01', 'substitution without the closedness test', THM,
+  "        if any(t.is_open() for t in list(inst.values()) + list(inst.var_inst.values())):\n            raise InvalidDerivationException(\"substitution: instantiation by an open term\")\n", "", 'C01.K10', 'closed(inst)')
+B('C01', 'closedness tested for the schematic table only', THM,
+  "        if any(t.is_open() for t in list(inst.values()) + list(inst.var_inst.values())):", "        if any(t.is_open() for t in inst.values()):", 'C01.K10', 'closed(inst.var_inst)')
+N('C01', 'closedness test as two loops', THM,
+  "        if any(t.is_open() for t in list(inst.values()) + list(inst.var_inst.values())):\n            raise InvalidDerivationException(\"substitution: instantiation by an open term\")\n",
+  "        for t in inst.values():\n            if t.is_open():\n                raise InvalidDerivationException(\"substitution: instantiation by an open term\")\n        for t in inst.var_inst.values():\n            if t.is_open():\n                raise InvalidDerivationException(\"substitution: instantiation by an open term\")\n")
